@@ -507,7 +507,9 @@ class ExprJoinedStr(Expr):
 
     def iterate(self, *, flat: bool = True) -> Iterator[str | Expr]:
         yield "f'"
-        yield from _join(self.values, "", flat=flat)
+        # Literal parts are rendered between single quotes: escape what would end them or start a field.
+        escape = str.maketrans({"\\": "\\\\", "'": "\\'", "{": "{{", "}": "}}", "\n": "\\n"})
+        yield from _join((v.translate(escape) if isinstance(v, str) else v for v in self.values), "", flat=flat)
         yield "'"
 
 
